@@ -1043,7 +1043,7 @@ int32 matrixSslNewHelloExtension(tlsExtension_t **extension, void *userPoolPtr)
     return PS_SUCCESS;
 }
 
-void psCopyHelloExtension(tlsExtension_t *destination,
+int32 psCopyHelloExtension(tlsExtension_t *destination,
         const tlsExtension_t *source)
 {
     const tlsExtension_t *src;
@@ -1060,40 +1060,61 @@ void psCopyHelloExtension(tlsExtension_t *destination,
         dst->pool = src->pool;
         dst->extType = src->extType;
         dst->extLen = src->extLen;
+        /* Keep the copy deletable at every point of failure */
+        dst->next = NULL;
         dst->extData = psMalloc(src->pool, src->extLen);
+        if (dst->extData == NULL)
+        {
+            dst->extLen = 0;
+            return PS_MEM_FAIL;
+        }
         Memcpy(dst->extData, src->extData, src->extLen);
         if (src->next)
         {
             dst->next = psMalloc(src->pool, sizeof(*dst->next));
+            if (dst->next == NULL)
+            {
+                return PS_MEM_FAIL;
+            }
             dst = dst->next;
             src = src->next;
         }
         else
         {
-            dst->next = NULL;
             break;
         }
     }
+    return PS_SUCCESS;
 }
 
 /*
   Make a deep copy of the extension struct for re-sending
   during renegotiations and TLS 1.3 HelloRetryRequest responses.
 */
-void psAddUserExtToSession(ssl_t *ssl,
+int32 psAddUserExtToSession(ssl_t *ssl,
         const tlsExtension_t *ext)
 {
     if (ext == NULL)
     {
         ssl->userExt = NULL;
-        return;
+        return PS_SUCCESS;
     }
     if (ssl->userExt == ext)
     {
-        return;
+        return PS_SUCCESS;
     }
     ssl->userExt = psMalloc(ssl->hsPool, sizeof(tlsExtension_t));
-    psCopyHelloExtension(ssl->userExt, ext);
+    if (ssl->userExt == NULL)
+    {
+        return PS_MEM_FAIL;
+    }
+    if (psCopyHelloExtension(ssl->userExt, ext) < 0)
+    {
+        matrixSslDeleteHelloExtension(ssl->userExt);
+        ssl->userExt = NULL;
+        return PS_MEM_FAIL;
+    }
+    return PS_SUCCESS;
 }
 
 /******************************************************************************/
